@@ -46,6 +46,8 @@ type siteInfo struct {
 
 var stdImporter types.Importer
 
+var exported []string
+
 var (
 	points []pointInfo
 	sites  []siteInfo
@@ -81,7 +83,7 @@ func main() {
 	})
 	b, _ := json.MarshalIndent(map[string]any{"Replace": replace}, "", " ")
 	must(os.WriteFile(filepath.Join(*out, "overlay.json"), b, 0o644))
-	b, _ = json.Marshal(map[string]any{"points": points, "cmp_sites": sites, "skipped": skips})
+	b, _ = json.Marshal(map[string]any{"points": points, "cmp_sites": sites, "skipped": skips, "exported_api": exported})
 	must(os.WriteFile(filepath.Join(*out, "points.json"), b, 0o644))
 	fmt.Printf("instr: %d points, %d comparison sites, %d skipped, %d files\n", len(points), len(sites), len(skips), len(replace))
 }
@@ -251,6 +253,9 @@ func instrumentPkg(repo, rel, pkgName, out string, replace map[string]string, fu
 				funcName = fd.Name.Name
 				if fd.Recv != nil && len(fd.Recv.List) > 0 {
 					funcName = typeName(fd.Recv.List[0].Type) + "." + funcName
+				}
+				if full && fd.Name.IsExported() && !strings.HasPrefix(fd.Name.Name, "Verif") && (fd.Recv == nil || ast.IsExported(typeName(fd.Recv.List[0].Type))) {
+					exported = append(exported, funcName)
 				}
 			} else {
 				funcName = "<init>"
